@@ -1,65 +1,81 @@
 //! C01 — encode/decode round trip preserves the Erlang value of every term.
+//!
+//! The round trip is decided as a chain of three bounded facts per shape (so that no query has a
+//! buffer of symbolic length):  E: `encode(t)` is byte-for-byte the reference encoding
+//! `emit(r, MODERN)` of the value r that t denotes (hence "valid ETF of the same value as read by an
+//! independent implementation");  D: `decode(emit(r, MODERN))` is Ok and denotes r;  R:
+//! `encode(decode(emit(r, MODERN)))` is again `emit(r, MODERN)`.  E+D+R give (a)-(d) of the statement.
 use crate::refetf::*;
 use crate::terms::*;
 use crate::vassert;
 use crate::vk;
 use erltf::OwnedTerm;
 
-pub fn roundtrip(t: &OwnedTerm, r: &RV) {
-    // (a) encoding a representable term succeeds
-    let bytes = match erltf::encode(t) {
-        Ok(b) => b,
+fn same_bytes(a: &[u8], b: &[u8]) -> bool {
+    if a.len() != b.len() {
+        return false;
+    }
+    let mut i = 0;
+    while i < a.len() {
+        if a[i] != b[i] {
+            return false;
+        }
+        i += 1;
+    }
+    true
+}
+
+fn reference_bytes(r: &RV) -> Out {
+    let mut o = Out::new();
+    o.push(131);
+    emit(r, &MODERN, &mut o);
+    o
+}
+
+/// E: the encoder's output is the reference encoding of the denoted value
+pub fn enc(t: &OwnedTerm, r: &RV) {
+    match erltf::encode(t) {
+        Ok(bytes) => {
+            vassert!(accepts(&bytes, r), "L:independent_reader_agrees");
+            let want = reference_bytes(r);
+            vassert!(same_bytes(&bytes, want.bytes()), "L:encoder_emits_reference_encoding");
+            vk::leak(bytes);
+        }
         Err(e) => {
             vassert!(false, "L:encode_ok");
             vk::leak(e);
-            return;
         }
-    };
-    // (b) an independent reader of the format reads the same value
-    vassert!(accepts(&bytes, r), "L:independent_reader_agrees");
-    // (c) the library's decoder yields a term denoting the same value
-    match erltf::decode(&bytes) {
+    }
+}
+
+/// D (and R when `reencode`) on the reference encoding; `int_mode`/`digits` pin the integer width
+/// class of the shape (0 = no top-level integer) so that the encoded length is concrete
+pub fn dec(r: &RV, int_mode: u8, digits: usize, reencode: bool) {
+    let mut out = Out::new();
+    out.push(131);
+    let alt = Alt { int: int_mode, pad: digits, ..MODERN };
+    emit(r, &alt, &mut out);
+    let bytes = out.bytes();
+    vassert!(accepts(bytes, r), "L:reference_bytes_encode_r");
+    match erltf::decode(bytes) {
         Ok(d) => {
             vassert!(denotes(&d, r), "L:decode_denotes_same_value");
-            // (d) encoding the decoded term reproduces the bytes
-            match erltf::encode(&d) {
-                Ok(b2) => {
-                    vassert!(b2.len() == bytes.len(), "L:reencode_same_length");
-                    let mut i = 0;
-                    let mut same = true;
-                    while i < bytes.len() && i < b2.len() {
-                        if bytes[i] != b2[i] {
-                            same = false;
-                        }
-                        i += 1;
+            if reencode {
+                match erltf::encode(&d) {
+                    Ok(b2) => {
+                        vassert!(same_bytes(&b2, bytes), "L:reencode_same_bytes");
+                        vk::leak(b2);
                     }
-                    vassert!(same, "L:reencode_same_bytes");
-                    vk::leak(b2);
-                }
-                Err(e) => {
-                    vassert!(false, "L:reencode_ok");
-                    vk::leak(e);
+                    Err(e) => {
+                        vassert!(false, "L:reencode_ok");
+                        vk::leak(e);
+                    }
                 }
             }
             vk::leak(d);
         }
         Err(e) => {
             vassert!(false, "L:decode_ok");
-            vk::leak(e);
-        }
-    }
-    vk::leak(bytes);
-}
-
-/// encode only: (a) + (b) — cheaper, used for shapes whose decode side is too costly
-pub fn encode_agrees(t: &OwnedTerm, r: &RV) {
-    match erltf::encode(t) {
-        Ok(bytes) => {
-            vassert!(accepts(&bytes, r), "L:independent_reader_agrees");
-            vk::leak(bytes);
-        }
-        Err(e) => {
-            vassert!(false, "L:encode_ok");
             vk::leak(e);
         }
     }
